@@ -87,12 +87,23 @@ def parse_traces(text):
     return res
 
 
+def _big_stack():
+    """the extracted model recurses on the length of its input (non-tail-recursive list functions): give it the largest
+    stack the system allows, so that texts of 10^5 lines do not end in a native stack overflow"""
+    import resource
+    try:
+        soft, hard = resource.getrlimit(resource.RLIMIT_STACK)
+        resource.setrlimit(resource.RLIMIT_STACK, (hard, hard))
+    except (ValueError, OSError):
+        pass
+
+
 def _run_shard(args):
     binpath, casefile, outfile, timeout = args
     t0 = time.time()
     try:
         with open(outfile, "wb") as out:
-            p = subprocess.run([binpath, casefile], stdout=out, stderr=subprocess.DEVNULL, timeout=timeout)
+            p = subprocess.run([binpath, casefile], stdout=out, stderr=subprocess.DEVNULL, timeout=timeout, preexec_fn=_big_stack)
         return (p.returncode, time.time() - t0)
     except subprocess.TimeoutExpired:
         return ("timeout", time.time() - t0)
